@@ -1,6 +1,6 @@
 (* Suites.v -- dispatcher over the correspondence suites.  Everything here is
    executable; it is extracted to OCaml and also evaluated inside Coq. *)
-From CoapV Require Import Base Suite01 Suite05 Suite06 Suite07 Suite13.
+From CoapV Require Import Base Suite01 Suite05 Suite06 Suite07 Suite13 Suite19.
 
 Definition run (suite : N) (s : list N) : list N :=
   match suite with
@@ -11,6 +11,7 @@ Definition run (suite : N) (s : list N) : list N :=
   | 60 => run60 s
   | 70 => run07 s
   | 130 => run130 s
+  | 190 => run190 s
   | _ => [998]
   end.
 
@@ -25,6 +26,7 @@ Definition verdict (suite : N) (s out : list N) : bool :=
   | 60 => verdict60 s out
   | 70 => verdict07 s out
   | 130 => verdict130 s out
+  | 190 => verdict190 s out
   | _ => false
   end.
 
@@ -38,6 +40,7 @@ Definition classify (suite : N) (s out : list N) : N :=
   | 60 => classify60 s
   | 70 => classify07 s
   | 130 => classify130 s
+  | 190 => classify190 s
   | _ => 0
   end.
 
